@@ -23,6 +23,23 @@ static void load_dir(const char* dir, const char* origin, const uint8_t* dict, s
     closedir(d);
 }
 static size_t g_legacyIdx[64]; static size_t g_nLegacy;
+/* formatted dictionary + a frame made with it (dictID field of 4 bytes), for the tables of many DDicts with random dictIDs */
+#include "zdict.h"
+static uint8_t g_fdict[8192]; static size_t g_fdictLen; static uint8_t g_fframe[4096]; static size_t g_fframeLen, g_fframeIdOff; static uint8_t g_fplain[1500];
+static void build_fdict(void)
+{
+    vrng r = vr_make(77, 3, 1); enum { NS = 300 }; static size_t sz[NS]; size_t tot = 0; uint8_t* buf = (uint8_t*)malloc(NS * 400);
+    for (int i = 0; i < NS; i++) { sz[i] = 200 + vr_u(&r, 200); gen_data(&r, buf + tot, sz[i], DF_TEXT); tot += sz[i]; }
+    size_t const dl = ZDICT_trainFromBuffer(g_fdict, sizeof g_fdict, buf, sz, NS);
+    if (!ZDICT_isError(dl) && dl > 8) {
+        g_fdict[4] = 0x78; g_fdict[5] = 0x56; g_fdict[6] = 0x34; g_fdict[7] = 0x12;     /* an ID that needs the 4-byte field */
+        memcpy(g_fplain, buf, sizeof g_fplain);
+        ZSTD_CCtx* c = ZSTD_createCCtx(); ZSTD_CCtx_setParameter(c, ZSTD_c_contentSizeFlag, 1); ZSTD_CCtx_loadDictionary(c, g_fdict, dl);
+        size_t const cs = ZSTD_compress2(c, g_fframe, sizeof g_fframe, g_fplain, sizeof g_fplain); ZSTD_freeCCtx(c);
+        if (!ZSTD_isError(cs)) for (size_t o = 5; o <= 6 && o + 4 <= cs; o++) if (g_fframe[o] == 0x78 && g_fframe[o + 1] == 0x56 && g_fframe[o + 2] == 0x34 && g_fframe[o + 3] == 0x12) { g_fframeIdOff = o; g_fframeLen = cs; g_fdictLen = dl; break; }
+    }
+    free(buf);
+}
 static void build_corpus(void)
 {
     vrng r = vr_make(20250101, 3, 0);       /* corpus is fixed; mutations are seeded */
@@ -157,7 +174,26 @@ static void run_case(long idx)
         (void)ZSTD_getDictID_fromDict(gd.p, dl); gb_free(&gd); ZSTD_DCtx_reset(d, ZSTD_reset_session_and_parameters); }
     {   g_ep = "ZSTD_decompressStream"; ZSTD_DCtx_reset(d, ZSTD_reset_session_and_parameters); if (vr_chance(&r, 1, 3)) ZSTD_DCtx_setParameter(d, ZSTD_d_windowLogMax, (int)vr_range(&r, 10, 27)); stream_decode(d, src.p, n, cap, &r, 0);
         g_ep = "ZSTD_decompressStream(stableOut)"; ZSTD_DCtx_reset(d, ZSTD_reset_session_and_parameters); stream_decode(d, src.p, n, cap, &r, 1);
-        if (dict) { g_ep = "ZSTD_decompressStream(multiDDict)"; ZSTD_DCtx_reset(d, ZSTD_reset_session_and_parameters); ZSTD_DCtx_setParameter(d, ZSTD_d_refMultipleDDicts, 1); ZSTD_DDict* dds[6]; int nd = 0; for (int i = 0; i < 6; i++) { uint8_t db[64]; memcpy(db, dict, V_MIN(dl, (size_t)64)); if (dl >= 8) db[4] = (uint8_t)i; ZSTD_DDict* dd = ZSTD_createDDict(db, V_MIN(dl, (size_t)64)); if (dd) { dds[nd++] = dd; ZSTD_DCtx_refDDict(d, dd); } } stream_decode(d, src.p, n, cap, &r, 0); ZSTD_DCtx_reset(d, ZSTD_reset_session_and_parameters); for (int i = 0; i < nd; i++) ZSTD_freeDDict(dds[i]); } }
+        /* the table of referenced DDicts lives as long as the DCtx (freed by ZSTD_freeDCtx only): own DCtx, freed before its DDicts */
+        if (dict) { g_ep = "ZSTD_decompressStream(multiDDict)"; ZSTD_DCtx* dm = ZSTD_createDCtx(); ZSTD_DCtx_setParameter(dm, ZSTD_d_refMultipleDDicts, 1); ZSTD_DDict* dds[6]; int nd = 0; for (int i = 0; i < 6; i++) { uint8_t db[64]; memcpy(db, dict, V_MIN(dl, (size_t)64)); if (dl >= 8) db[4] = (uint8_t)i; ZSTD_DDict* dd = ZSTD_createDDict(db, V_MIN(dl, (size_t)64)); if (dd) { dds[nd++] = dd; ZSTD_DCtx_refDDict(dm, dd); } } stream_decode(dm, src.p, n, cap, &r, 0); ZSTD_freeDCtx(dm); for (int i = 0; i < nd; i++) ZSTD_freeDDict(dds[i]); } }
+    if (g_fdictLen && vr_chance(&r, 1, 6)) {   /* table of many DDicts with random dictIDs (ZSTD_d_refMultipleDDicts), frames naming present / absent IDs */
+        g_ep = "refMultipleDDicts(table of random dictIDs)"; int const K = 1 + (int)vr_u(&r, vr_chance(&r, 1, 2) ? 70 : 300); ZSTD_DDict** dds = (ZSTD_DDict**)calloc((size_t)K, sizeof *dds); uint32_t* ids = (uint32_t*)calloc((size_t)K, sizeof *ids);
+        uint8_t* db = (uint8_t*)malloc(g_fdictLen); memcpy(db, g_fdict, g_fdictLen); ZSTD_DCtx* const dm = ZSTD_createDCtx(); ZSTD_DCtx_setParameter(dm, ZSTD_d_refMultipleDDicts, ZSTD_rmd_refMultipleDDicts);
+        for (int i = 0; i < K; i++) { uint32_t id = (uint32_t)vr_next(&r) | 0x10000u; if (i && vr_chance(&r, 1, 10)) id = ids[vr_u(&r, (uint32_t)i)]; ids[i] = id; db[4] = (uint8_t)id; db[5] = (uint8_t)(id >> 8); db[6] = (uint8_t)(id >> 16); db[7] = (uint8_t)(id >> 24);
+            dds[i] = ZSTD_createDDict(db, g_fdictLen); if (dds[i]) (void)ZSTD_DCtx_refDDict(dm, dds[i]); }
+        for (int t = 0; t < 24; t++) { uint8_t f[sizeof g_fframe]; memcpy(f, g_fframe, g_fframeLen); int const present = (int)vr_u(&r, 2); uint32_t const id = present ? ids[vr_u(&r, (uint32_t)K)] : ((uint32_t)vr_next(&r) | 0x10000u);
+            f[g_fframeIdOff] = (uint8_t)id; f[g_fframeIdOff + 1] = (uint8_t)(id >> 8); f[g_fframeIdOff + 2] = (uint8_t)(id >> 16); f[g_fframeIdOff + 3] = (uint8_t)(id >> 24);
+            gbuf o = gb_alloc(sizeof g_fplain, 0); gbuf fi = gb_alloc(g_fframeLen, 0); memcpy(fi.p, f, g_fframeLen); size_t ret;
+            if (t & 1) ret = ZSTD_decompressDCtx(dm, o.p, o.size, fi.p, fi.size);
+            else { ZSTD_inBuffer in = { fi.p, 0, 0 }; ZSTD_outBuffer ob = { o.p, o.size, 0 }; size_t const step = 1 + vr_u(&r, 12); int g = 0; ret = 1; while (ret != 0 && !ZSTD_isError(ret) && ++g < 10000) { in.size = V_MIN(fi.size, in.size + step); ret = ZSTD_decompressStream(dm, &ob, &in); if (in.pos == fi.size && in.size == fi.size && ret != 0 && !ZSTD_isError(ret)) break; }
+                if (!ZSTD_isError(ret)) ret = ob.pos; ZSTD_DCtx_reset(dm, ZSTD_reset_session_only); }
+            if (!ZSTD_isError(ret) && (ret != sizeof g_fplain || memcmp(o.p, g_fplain, sizeof g_fplain))) v_viol("multi-ddict:wrong-bytes-reported-as-success", "K=%d id=%u present=%d", K, id, present);
+            if (present && ZSTD_isError(ret)) v_stat("multi_ddict_present_id_refused", 1);   /* not a C03 matter; counted */
+            if (present && !ZSTD_isError(ret)) v_stat("multi_ddict_present_id_decoded", 1);
+            canary(&o); gb_free(&o); gb_free(&fi); v_stat("multi_ddict_lookups", 1); }
+        v_stat("multi_ddict_tables", 1); v_statmax("multi_ddict_table_max_entries", K);
+        ZSTD_freeDCtx(dm); for (int i = 0; i < K; i++) ZSTD_freeDDict(dds[i]); free(dds); free(ids); free(db);
+    }
     {   g_ep = "ZSTD_decompressContinue"; ZSTD_DCtx_reset(d, ZSTD_reset_session_and_parameters); ZSTD_decompressBegin(d); gbuf o = gb_alloc(cap, 0); size_t ip = 0, op = 0; long guard = 0;
         for (;;) { size_t const need = ZSTD_nextSrcSizeToDecompress(d); if (need == 0 || need > n - ip) break; size_t const ret = ZSTD_decompressContinue(d, o.p + op, cap - op, src.p + ip, need); if (ZSTD_isError(ret)) break; if (ret > cap - op) { v_viol("returned-size-exceeds-capacity", "entry=%s", g_ep); break; } ip += need; op += ret; if (++guard > 3000000) { v_viol("bufferless-too-many-steps", "n=%zu", n); break; } }
         canary(&o); gb_free(&o); }
@@ -178,7 +214,7 @@ static void run_case(long idx)
 int main(int argc, char** argv)
 {
     v_init(argc, argv); vp_trace_on = 0;
-    build_corpus();
+    build_corpus(); build_fdict();
     if (g_nCorpus < 50) { fprintf(stderr, "corpus too small (%zu)\n", g_nCorpus); return 2; }
     {   char b[64]; snprintf(b, sizeof b, "%zu", g_nCorpus); v_cell("corpus_size", "%s", b); }
     for (long i = V.from; i < V.to; i++) { v_case(i); run_case(i); }
